@@ -145,3 +145,53 @@ Proof.
   2:{ subst lres. cst. cfin. rewrite Eid, El, Ea, Ed, Eu. cbn [negb]. sent. }
   subst lres. cst. cst. cfin. rewrite Eid, El, Ea, Ed, Eu. cbn [negb]. sent.
 Qed.
+
+(** exactly one reply in every case; when it is not a Success response it is either the plain HTTP 500 or a SAML
+    response whose status is one of four non-Success codes, carrying no user data and no signature (the [CFailed]
+    constructor has neither) *)
+Definition failure_statuses : list bytes :=
+  [c_StatusCodeRequestDenied; c_StatusCodeAuthNFailed; c_StatusCodeInvalidAttrNameOrValue; c_StatusCodeResponder].
+Lemma failure_statuses_not_success : forallb (fun s => negb (beq s c_StatusCodeSuccess)) failure_statuses = true.
+Proof. vm_compute. reflexivity. Qed.
+
+Definition failure_reply (r : creply) : Prop :=
+  r = CHttp 500 \/ exists d m st msg, r = CSaml d m /\ m_resp m = CFailed st msg /\ In st failure_statuses.
+
+Lemma deliver_failed acs binding relay m st msg :
+  m_resp m = CFailed st msg -> In st failure_statuses -> failure_reply (deliver acs binding relay m).
+Proof.
+  intros Hm Hs. unfold deliver.
+  destruct (is_empty acs); [right; eauto 8|].
+  destruct (beq binding c_PostBinding); [right; eauto 8|].
+  destruct (beq binding c_RedirectBinding); [right; eauto 8|left; reflexivity].
+Qed.
+
+Theorem callback_one_reply : forall form_ok form_id lookup_req app_entity userinfo cert_ok sign_ok,
+  exists r, cs_out (callback form_ok form_id lookup_req app_entity userinfo cert_ok sign_ok callback_seq loginResponse_seq) = [r] /\
+            (is_success r = false -> failure_reply r).
+Proof.
+  intros form_ok form_id lookup_req app_entity userinfo cert_ok sign_ok.
+  pose proof (callback_table form_ok form_id lookup_req app_entity userinfo cert_ok sign_ok) as T.
+  unfold expected in T. destruct T as [_ T].
+  assert (F : forall st, In st failure_statuses -> forall acs binding relay irt dst aud msg,
+            failure_reply (deliver acs binding relay {| m_in_response_to := irt; m_destination := dst; m_audience := aud; m_resp := CFailed st msg |})).
+  { intros st Hs acs binding relay irt dst aud msg. eapply deliver_failed; [reflexivity|exact Hs]. }
+  destruct form_ok; cbn [negb] in T; [|destruct T as [T _]; rewrite T; eexists; split; [reflexivity|intros _; now left]].
+  destruct (is_empty form_id); [destruct T as [T _]; rewrite T; eexists; split; [reflexivity|intros _; now left]|].
+  destruct (lookup_req form_id) as [rec|].
+  2:{ destruct T as [_ T]. rewrite T. eexists. split; [reflexivity|]. intros _. right.
+      do 4 eexists. split; [reflexivity|]. split; [reflexivity|]. left. reflexivity. }
+  destruct (app_entity (sr_app rec)) as [ent|]; [|destruct T as [T _]; rewrite T; eexists; split; [reflexivity|intros _; now left]].
+  destruct (sr_done rec); cbn [negb] in T.
+  2:{ destruct T as [T _]. rewrite T. eexists. split; [reflexivity|]. intros _. apply F. right. left. reflexivity. }
+  destruct (userinfo (sr_app rec) (sr_user rec)) as [u|].
+  2:{ destruct T as [T _]. rewrite T. eexists. split; [reflexivity|]. intros _. apply F. right. right. left. reflexivity. }
+  destruct cert_ok; cbn [negb] in T.
+  2:{ destruct T as [T _]. rewrite T. eexists. split; [reflexivity|]. intros _. apply F. right. right. left. reflexivity. }
+  destruct sign_ok; cbn [negb] in T.
+  2:{ destruct T as [T _]. rewrite T. eexists. split; [reflexivity|]. intros _. apply F. right. right. right. left. reflexivity. }
+  destruct T as [T _]. rewrite T. eexists. split; [reflexivity|].
+  unfold deliver. destruct (is_empty (sr_acs rec)); [cbn; discriminate|].
+  destruct (beq (sr_binding rec) c_PostBinding); [cbn; discriminate|].
+  destruct (beq (sr_binding rec) c_RedirectBinding); [cbn; discriminate|intros _; now left].
+Qed.
